@@ -168,7 +168,7 @@ def body(ck, F, cfg):
     try:
         r3 = I3.call_fn(P_FF, [st, IntV(k)])
         d3 = I3.draw_log
-        loops = [l for l in I3.loop_log if l["fn"] == P_FF]
+        loops = [l for l in I3.loop_log if FX.same_fn(l["fn"], P_FF)]
         okf = len(d3) == 1 and d3[0]["kind"] == "point" and d3[0]["rng"] is st.fields["prng"] and len(d3[0]["idx"]) == 1 and len(loops) == 1 and eq(loops[0]["n"], k) and isinstance(r3, Struct) and r3.fields["prng"] is st.fields["prng"]
         guards = [it for it in I3.trace.items if it[0] in ("guard", "alt")]
         okf = okf and not guards
@@ -214,7 +214,7 @@ def body(ck, F, cfg):
             enc = s_[1] if s_ else None
             okl = enc is not None and enc[0] == "LE" and isinstance(enc[1], IntV) and len(c.info["idx"]) == 1 and eq(enc[1].e, c.info["idx"][0]) and eq(enc[2], 4)
             ck.require(okl, "R12.1", f"labels:party-index:{chr(s_[0]) if s_ and 0 < s_[0] < 128 else '?'}", f"label must be [tag, LE32(party index)] with the loop's party index in bytes 1..5; got {enc}", where)
-        loops = [l for l in I4.loop_log if l["fn"] == P_INC]
+        loops = [l for l in I4.loop_log if FX.same_fn(l["fn"], P_INC)]
         ck.require(len(loops) == 1 and eq(loops[0]["n"], parties) and eq(loops[0]["off"], 0), "R12.2", "increase:all-parties", f"all parties 0..party_capacity must be extended; loops: {[(str(l['n']), str(l['off'])) for l in loops]}", where)
         i = isym("pi")
         from ..alg import Bounds
